@@ -65,6 +65,8 @@ def check_cases(cases: list[dict], rep: Report, known: dict) -> None:
     ncs = []
     groups = []
     for c in cases:
+        if rep.stop():
+            break
         e = wire.build_raw(c["e"])
         p = wire.build_point(c["p"])
         base = call(e.at, p)
